@@ -10,10 +10,11 @@ matrices `row;row;…` (`-` = no rows).  Bases live in named registers.
 
 ```
 reset
-new NAME dense NPIX NMODES ROWS
-new NAME csc NPIX NMODES INDPTR INDICES DATA
-new NAME fields NPIX MODES               (MODES: one vector per mode)
-new NAME rows NPIX IDXLISTS VALLISTS      (one sparse row vector per mode)
+new NAME ndarray NPIX NMODES ROWS                      (a 2-D ndarray)
+new NAME spmat csc|csr|coo NPIX NMODES P Q DATA        (csc/csr: indptr indices; coo: row col)
+new NAME seq list|tuple ITEMS                          (ITEMS: item;item;… or -; item = d|VECTOR
+                                                        or s|NROWS|NCOLS|INDICES|VALUES)
+                                          -> ok KIND NPIX NMODES ROWS | err value   (through `fromInput`)
 desc NAME                                 -> ok KIND NPIX NMODES ROWS
 lc NAME COEFFS                            -> ok VECTOR
 get NAME DST new|old int K | slice A B C | list [..] | mask [0,1,..]
@@ -23,7 +24,14 @@ add A B DST | extend A B DST | append A VEC DST | tosparse A DST | todense A DST
 nnz NAME                                  -> ok N   (stored entries; dense: npix*nmodes)
 lstsq NAME VECTOR                         -> ok VECTOR | err rank
 mirror new NPIX NMODES ROWS | assign V | alias H | edit H I X | flatten | random V
-       | setif NPIX NMODES ROWS | read    -> ok … (read: ok VECTOR hit|miss)
+       | setif NPIX NMODES ROWS | read    -> ok … (read: ok VECTOR hit|miss; the K-th read, K = 0,1,…, hands out array K)
+       | sedit K I X                      -> ok      (in-place edit of handed-out surface array K)
+       | held K                           -> ok VECTOR (contents of handed-out surface array K)
+       | opd                              -> ok VECTOR hit|miss  (`readOpd`: one read of the surface — it takes an ordinal K
+                                             like a read, nobody keeps that array — and the doubled values)
+       | ideal                            -> ok SURFACE OPD | err spec-diverged
+                                             (the cache-free specification, stepped alongside by `Spec.step`: its read and its opd;
+                                              `err` when its state is not `spec` of the cached mirror's state)
 ```
 -/
 namespace HcipyVerif.Driver.C14
@@ -32,6 +40,8 @@ open HcipyVerif.Proto HcipyVerif.ModeBasis HcipyVerif.Mirror
 structure St where
   regs : List (String × Basis CRat) := []
   mirror : Option (Mirror CRat) := none
+  /-- the cache-free specification, stepped alongside the mirror -/
+  ideal : Option (Spec CRat) := none
 
 def parseC? (s : String) : Option CRat :=
   match s.splitOn ":" with
@@ -86,11 +96,42 @@ def nnz : Basis CRat → Nat
   | .dense n m _ => n * m
   | .sparse _ _ cols => (cols.map List.length).sum
 
+def parseMode? (s : String) : Option (Mode CRat) :=
+  match s.splitOn "|" with
+  | ["d", v] => (parseVec? v).map Mode.vec
+  | ["s", nr, nc, idx, vals] => do
+    let nr ← parseNat? nr; let nc ← parseNat? nc
+    let ix ← parseNatList? idx; let vs ← parseVec? vals
+    if ix.length == vs.length then pure (Mode.sp nr nc (ix.zip vs)) else none
+  | _ => none
+
+/-- the description of the Python object handed to `ModeBasis(...)`; the shapes and index ranges
+that NumPy/SciPy guarantee are validated by `Input.valid` (never defaulted) — the predicate
+`fromInput_WF` is about -/
+def parseInput? (args : List String) : Option (Input CRat) := do
+  let inp ← (match args with
+    | ["ndarray", npix, nmodes, rows] => do
+      let n ← parseNat? npix; let m ← parseNat? nmodes; let r ← parseMat? rows
+      pure (Input.ndarray n m r)
+    | ["spmat", fmt, npix, nmodes, p, q, data] => do
+      let n ← parseNat? npix; let m ← parseNat? nmodes
+      let p ← parseNatList? p; let q ← parseNatList? q; let d ← parseVec? data
+      let f ← (match fmt with | "csc" => some SpFmt.csc | "csr" => some SpFmt.csr | "coo" => some SpFmt.coo | _ => none)
+      pure (Input.spmat f n m p q d)
+    | ["seq", kind, items] => do
+      let t ← (if kind == "tuple" then some true else if kind == "list" then some false else none)
+      let ms ← (if items == "-" then some [] else (items.splitOn ";").mapM parseMode?)
+      pure (Input.seq t ms)
+    | _ => none)
+  if inp.valid then pure inp else none
+
 def mirrorStep (st : St) : List String → St × String
   | ["new", npix, nmodes, rows] =>
     match parseNat? npix, parseNat? nmodes, parseMat? rows with
     | some n, some m, some r =>
-      if wellShaped n m r then ({ st with mirror := some (Mirror.init r m) }, "ok") else (st, "bad-op")
+      if wellShaped n m r then
+        ({ st with mirror := some (Mirror.init r m), ideal := some (spec (Mirror.init r m)) }, "ok")
+      else (st, "bad-op")
     | _, _, _ => (st, "bad-op")
   | args =>
     match st.mirror with
@@ -98,7 +139,7 @@ def mirrorStep (st : St) : List String → St × String
     | some mir =>
       let fin (op : Op CRat) (out : Mirror CRat → String) : St × String :=
         let r := Mirror.step mir op
-        ({ st with mirror := some r.1 }, out r.1)
+        ({ st with mirror := some r.1, ideal := st.ideal.map fun s => (s.step op).1 }, out r.1)
       match args with
       | ["assign", v] =>
         match parseVec? v with
@@ -127,41 +168,52 @@ def mirrorStep (st : St) : List String → St × String
       | ["read"] =>
         let hit := decide (mir.cached = some (acts mir))
         let r := Mirror.read mir
-        ({ st with mirror := some r.1 }, s!"ok {showVec r.2} {if hit then "hit" else "miss"}")
+        ({ st with mirror := some r.1, ideal := st.ideal.map fun s => (s.step .read).1 },
+          s!"ok {showVec r.2} {if hit then "hit" else "miss"}")
+      | ["opd"] =>
+        let hit := decide (mir.cached = some (acts mir))
+        let r := Mirror.readOpd mir
+        ({ st with mirror := some r.1, ideal := st.ideal.map fun s => (s.step .read).1 },
+          s!"ok {showVec r.2} {if hit then "hit" else "miss"}")
+      | ["ideal"] =>
+        match st.ideal with
+        | some s =>
+          if spec mir = s then
+            match (s.step .read).2 with
+            | some v => (st, s!"ok {showVec v} {showVec s.opd}")
+            | none => (st, "err internal")
+          else (st, "err spec-diverged")
+        | none => (st, "bad-op")
       | ["acts"] => (st, s!"ok {showVec (acts mir)}")
+      | ["sedit", k, i, x] =>
+        -- in-place edit of the array the K-th read of `dm.surface` returned
+        match parseNat? k, parseNat? i, parseC? x with
+        | some k, some i, some x =>
+          match mir.outs[k]? with
+          | some h =>
+            if i < (mir.sheap.getD h []).length then fin (.editSurface k i x) fun _ => "ok" else (st, "bad-op")
+          | none => (st, "bad-op")
+        | _, _, _ => (st, "bad-op")
+      | ["held", k] =>
+        -- what the caller sees in the array the K-th read returned
+        match parseNat? k with
+        | some k =>
+          match mir.outs[k]? with
+          | some h => (st, s!"ok {showVec (mir.sheap.getD h [])}")
+          | none => (st, "bad-op")
+        | none => (st, "bad-op")
       | _ => (st, "bad-op")
 
 def step (st : St) : List String → St × String
   | ["reset"] => ({}, "ok")
-  | ["new", name, "dense", npix, nmodes, rows] =>
-    match parseNat? npix, parseNat? nmodes, parseMat? rows with
-    | some n, some m, some r =>
-      if wellShaped n m r then
-        let b := fromDense n m r; (store st name b, "ok " ++ desc b)
-      else (st, "bad-op")
-    | _, _, _ => (st, "bad-op")
-  | ["new", name, "csc", npix, nmodes, indptr, indices, data] =>
-    match parseNat? npix, parseNat? nmodes, parseNatList? indptr, parseNatList? indices, parseVec? data with
-    | some n, some m, some ip, some ix, some d =>
-      if ip.length == m + 1 && ix.length == d.length && ix.all (· < n) && ip.getLast? == some d.length then
-        let b := fromCSC n m ip ix d; (store st name b, "ok " ++ desc b)
-      else (st, "bad-op")
-    | _, _, _, _, _ => (st, "bad-op")
-  | ["new", name, "fields", npix, modes] =>
-    match parseNat? npix, parseMat? modes with
-    | some n, some ms =>
-      if ms.all (·.length == n) && !ms.isEmpty then
-        let b := fromFields n ms; (store st name b, "ok " ++ desc b)
-      else (st, "bad-op")
-    | _, _ => (st, "bad-op")
-  | ["new", name, "rows", npix, idx, vals] =>
-    match parseNat? npix, parseLists? parseNatList? idx, parseMat? vals with
-    | some n, some ix, some vs =>
-      if ix.length == vs.length && !ix.isEmpty &&
-          (List.zipWith (fun (a : List Nat) (b : List CRat) => a.length == b.length && a.all (· < n)) ix vs).all id then
-        let b := fromSparseRows n (List.zipWith List.zip ix vs); (store st name b, "ok " ++ desc b)
-      else (st, "bad-op")
-    | _, _, _ => (st, "bad-op")
+  | "new" :: name :: spec =>
+    -- every basis is built by `fromInput` from a description of the Python object
+    match parseInput? spec with
+    | none => (st, "bad-op")
+    | some inp =>
+      match fromInput inp with
+      | some b => (store st name b, "ok " ++ desc b)
+      | none => (st, "err value")
   | ["desc", name] =>
     match lookup st name with
     | some b => (st, "ok " ++ desc b)
@@ -220,7 +272,7 @@ def step (st : St) : List String → St × String
       | none => (st, "err rank")
       | some x =>
         -- self-certificate: the normal equations hold exactly
-        if (normalResidual CRat.conj b x y).all (· == 0) && x.length == b.nmodes then (st, "ok " ++ showVec x)
+        if certified CRat.conj b x y then (st, "ok " ++ showVec x)
         else (st, "err internal")
     | _, _ => (st, "bad-op")
   | "mirror" :: rest => mirrorStep st rest
